@@ -283,7 +283,7 @@ var codeShapes = []string{
 	`<iframe src="@@"></iframe>`, `<iframe src="https://h/@@"></iframe>`, `<frame src="@@">`, `<embed src="@@">`, `<object data="@@"></object>`, `<base href="@@">`, `<base href="https://h/@@">`,
 	`<link rel="stylesheet" href="@@">`, `<link rel='stylesheet' href='https://h/@@.css'>`, `<link rel="STYLESHEET" href="@@">`, `<link rel="alternate stylesheet" href="@@">`, `<link rel="stylesheet icon" href="@@">`, `<link rel="icon stylesheet" href="@@">`, `<link rel="icon" href="@@">`,
 	`<link href="@@" rel="stylesheet">`, `<link rel=stylesheet href="@@">`, `<link rel="stylesheet" rel="icon" href="@@">`, `<link rel="icon" rel="stylesheet" href="@@">`, `<link rel="style&#115;heet" href="@@">`, `<link rel="icon&#32;stylesheet" href="@@">`, `<link rel="icon&Tab;stylesheet" href="@@">`, `<link rel="icon` + "\f" + `stylesheet" href="@@">`,
-	`<link rel="@@" href="/x.css">`, `<link rel="{{.R}}icon" href="@@">`, `<link rel="icon {{.R}}" href="@@">`, `<link rel="{{.R}}" href="@@">`, `<link rel="{{.R}} icon" href="@@">`, `<link rel="{{if .C}}stylesheet{{else}}icon{{end}}" href="@@">`,
+	`<link rel="@@" href="/x.css">`, `<link rel="{{.R}}icon" href="@@">`, `<link rel="icon {{.R}}" href="@@">`, `<link rel="{{.R}}" href="@@">`, `<link rel="{{.R}} icon" href="@@">`, `<link rel="{{if .C}}stylesheet{{else}}icon{{end}}" href="@@">`, `<link rel="{{if .F}}icon{{else}}stylesheet{{end}}" href="@@">`, `<link rel="icon {{with .C}}stylesheet{{end}}" href="@@">`, `<link rel="{{range .L}}stylesheet {{end}}icon" href="@@">`,
 	`<a href=@@>`, `<a title=@@>`, `<a href=/x/@@>`, `<@@>`, `<a@@>`, `<a @@="x">`, `<a x@@="y">`, `<a @@>`, `</@@>`, `<a href="x" @@>`,
 	`<a href="@@">`, `<a href='@@'>`, `<img src="@@">`, `<form action="@@">`, `<button formaction="@@">`, `<img srcset="@@">`, `<img srcset="a.png 1x, @@ 2x">`, `<video poster="@@">`, `<a xlink:href="@@">`,
 	`<script><!--<script></script>@@--></script>`, `<script><!--<SCRIPT>x</SCRIPT>@@//--></script>`, `<script>/*<!--*/</script><p>@@</p>`,
@@ -374,7 +374,7 @@ func checkCode(c CodeCase) evid.Outcome {
 			}
 		}
 		if strings.Contains(c.Shape, `{{.R}}`) {
-			v.Finding = "K-reldyn"
+			v.Finding = "F-reldyn-regressed"
 		}
 		return v
 	}
